@@ -7,6 +7,7 @@ from pyvc.contract import Contract
 from pyvc.values import *   # noqa
 from pyvc import source, models
 from pyvc.models import uf
+from pyvc.ctx import VC
 from .common import make_registry, install_trace_funcs, register_classes
 
 T_PY = "wormhole/transit.py"
@@ -262,6 +263,16 @@ def make_transit_registry(contracts, exclude=()):
             return NONE
         return evs[-1][1][2][i]
 
+    def seq_unfold(it, sq, i):
+        """lemma (proved as an obligation of its own, then used): for 0 <= i < len(s), s[i:] == [s[i]] + s[i+1:]"""
+        L = z3.Length(sq.z)
+        fact = z3.Implies(z3.And(0 <= i.z, i.z < L),
+                          z3.Extract(sq.z, i.z, L - i.z) == z3.Concat(z3.Unit(sq.z[i.z]), z3.Extract(sq.z, i.z + 1, L - i.z - 1)))
+        # a fact of the sequence theory alone: proved without the path condition (fewer hypotheses), then used
+        it.ctx.vcs.append(VC("lemma.seq-unfold[s[i:] == [s[i]] + s[i+1:]]", [], fact, {"kind": "lemma", "src": "pure sequence fact"}))
+        it.ctx.assume(fact)
+        return VBool(True)
+
     def n_events(it, name):
         name = it.concrete(name)
         return VInt(sum(1 for e in it.ctx.trace if e[0] == name))
@@ -287,7 +298,7 @@ def make_transit_registry(contracts, exclude=()):
     sf.update({"n_calls": n_calls, "n_returns": n_returns, "call_arg": call_arg, "iter_n_calls": iter_n_calls,
                "iter_call_arg": iter_call_arg, "iter_call_result": iter_call_result, "call_order": call_order,
                "iter_bcall_names": iter_bcall_names, "iter_bcall_arg": iter_bcall_arg, "n_events": n_events,
-               "event_arg": event_arg, "is_method_of": is_method_of, "last_bcall_arg": last_bcall_arg})
+               "event_arg": event_arg, "is_method_of": is_method_of, "last_bcall_arg": last_bcall_arg, "seq_unfold": seq_unfold})
     return reg
 
 
